@@ -46,6 +46,8 @@ EXTRA_PAIRS = [
     ("VoiceAssistantConfigurationResponse", "VoiceAssistantConfigurationResponse"),
 ]
 # model enum -> wire enum where the names differ and no converter field / command argument ties them
+# wire enum -> model FLAG enum (enum.IntFlag, no converter): the wire enum declares the bit values of a uint32 flags field
+FLAG_ENUMS = {"VoiceAssistantSubscribeFlag": "VoiceAssistantSubscriptionFlag"}
 RENAMED_ENUMS = {"VoiceAssistantEventType": "VoiceAssistantEvent", "VoiceAssistantTimerEventType": "VoiceAssistantTimerEvent"}
 
 
@@ -163,6 +165,25 @@ def enum_pairs() -> tuple:
     return list(pairs.values()), unpaired
 
 
+def flag_enum_pairs() -> tuple:
+    """([(model IntFlag class, wire EnumDescriptor, origin)], [wire enums that no model enum is paired with])"""
+    import enum
+
+    PB, M, MC, CL = _mods()
+    pairs, _unp = enum_pairs()
+    paired_wire = {wd.name for _me, wd, _o in pairs}
+    out, unpaired_wire = [], []
+    for wn, wd in PB.DESCRIPTOR.enum_types_by_name.items():
+        if wn in paired_wire:
+            continue
+        mc = getattr(M, FLAG_ENUMS.get(wn, wn), None)
+        if isinstance(mc, type) and issubclass(mc, enum.Enum):
+            out.append((mc, wd, "flag enum: the wire enum declares the bits of a uint32 flags field (listed pairing)"))
+        else:
+            unpaired_wire.append(wn)
+    return out, unpaired_wire
+
+
 # ---- z3 encodings ---------------------------------------------------------------------------
 
 
@@ -206,7 +227,7 @@ def prefixes_of(names) -> list:
     return out
 
 
-def enum_obligation(me, wd, origin, known_points=()) -> dict:
+def enum_obligation(me, wd, origin, known_points=(), flag=False) -> dict:
     """wire numbers/names == model numbers/names (modulo ONE common wire-name prefix), no aliases.
 
     `known_points`: mismatch points attributed to a listed known finding -- ("alias", number, name, name)
@@ -214,9 +235,10 @@ def enum_obligation(me, wd, origin, known_points=()) -> dict:
     kp_alias = [(p[1], frozenset(p[2:4])) for p in known_points if p[0] == "alias"]
     kp_name = [(p[1], p[2]) for p in known_points if p[0] == "name"]
     I = _Intern()
-    wire = [(v.name, v.number) for v in wd.values]
+    prefs = prefixes_of([v.name for v in wd.values])
+    # a flag enum has no member for "no flag": the wire's zero value is not expected on the model side
+    wire = [(v.name, v.number) for v in wd.values if not (flag and v.number == 0)]
     model = [(name, int(member.value)) for name, member in me.__members__.items()]  # includes aliases
-    prefs = prefixes_of([w for w, _ in wire])
     s = z3.Solver()
     queries = 0
     n, a, b = z3.Ints("n a b")
